@@ -35,18 +35,51 @@ structure SpecSide where
 
 /-- a live `PCryptoHash` with the spec's view of it -/
 structure Live where
+  code : Int
   A : Impl
   spec : Bytes → Bytes
   h : Hash A
   sp : SpecSide := {}
 
-def algOf : String → Option (Impl × (Bytes → Bytes))
-  | "sha3-224" => some (sha3_224, SpecStd.sha3_224)
-  | "sha3-256" => some (sha3_256, SpecStd.sha3_256)
-  | "sha3-384" => some (sha3_384, SpecStd.sha3_384)
-  | "sha3-512" => some (sha3_512, SpecStd.sha3_512)
-  | "gost" => some (gost, fun m => if m.length ≤ gostStdLimit then SpecStd.gost m else Spec.gost m)
+def codeOf : String → Option Int
+  | "sha3-224" => some PV.Generated.HashX.typeCode_sha3_224
+  | "sha3-256" => some PV.Generated.HashX.typeCode_sha3_256
+  | "sha3-384" => some PV.Generated.HashX.typeCode_sha3_384
+  | "sha3-512" => some PV.Generated.HashX.typeCode_sha3_512
+  | "gost" => some PV.Generated.HashX.typeCode_gost
   | _ => none
+
+/-- the one-shot spec of an enumerator value -/
+def specOfCode (c : Int) : Option (Bytes → Bytes) :=
+  if c = PV.Generated.HashX.typeCode_sha3_224 then some SpecStd.sha3_224
+  else if c = PV.Generated.HashX.typeCode_sha3_256 then some SpecStd.sha3_256
+  else if c = PV.Generated.HashX.typeCode_sha3_384 then some SpecStd.sha3_384
+  else if c = PV.Generated.HashX.typeCode_sha3_512 then some SpecStd.sha3_512
+  else if c = PV.Generated.HashX.typeCode_gost then some (fun m => if m.length ≤ gostStdLimit then SpecStd.gost m else Spec.gost m)
+  else none
+
+/-- `p_crypto_hash_new ((PCryptoHashType) c)` for a type of this family -/
+def liveOfCode (c : Int) : Option Live :=
+  match implOfCode c, specOfCode c with
+  | some A, some spec => some { code := c, A := A, spec := spec, h := Hash.new A }
+  | _, _ => none
+
+/-- `T:R:HEX` of the `par` op -/
+def parArgs (a : String) : Option (Nat × Nat × Bytes) :=
+  match a.splitOn ":" with
+  | [t, r, hex] => do
+    let t ← t.toNat?
+    let r ← r.toNat?
+    let b ← bytesOfHex hex
+    if 1 ≤ t ∧ t ≤ 16 then some (t, r, b) else none
+  | _ => none
+
+def updoOps : List String := ["updo1", "updo2", "updo3", "updo4", "updo5", "updo6", "updo7"]
+
+/-- the four handle slots of the harness and the selected one -/
+structure Slots where
+  slots : Array (Option Live) := #[none, none, none, none]
+  cur : Nat := 0
 
 def SpecSide.note (l : SpecSide) (s : Seg) (n : Nat) : SpecSide :=
   if l.frozen || n = 0 then l else { l with segs := s :: l.segs, total := l.total + n }
@@ -63,19 +96,63 @@ def withSpec (model : String) (spec : Option String) : String :=
   | some s => if s = model then model else model ++ " SPECDIFF " ++ s
   | none => model
 
-partial def loop (stdin : IO.FS.Stream) (cur : Option Live) : IO Unit := do
+partial def loopZ (stdin : IO.FS.Stream) (z : Slots) : IO Unit := do
   let line ← stdin.getLine
   if line.isEmpty then return
   let toks := (line.trimAscii.toString.splitOn " ").filter (· ≠ "")
-  -- the harness reads at most two tokens (`sscanf ("%15s %s")`)
-  let toks := toks.take 2
+  -- the harness reads at most two tokens (`sscanf ("%15s %s")`); `updoK` is `upd` with unaligned input
+  let toks := match toks.take 2 with
+    | [op, a] => if updoOps.contains op then ["upd", a] else [op, a]
+    | t => t
+  let cur : Option Live := (z.slots.getD z.cur none)
+  let loop (stdin : IO.FS.Stream) (c : Option Live) : IO Unit := loopZ stdin { z with slots := z.slots.setIfInBounds z.cur c }
   match toks, cur with
   | [], _ => loop stdin cur
+  | ["use", k], _ =>
+    match k.toNat? with
+    | some k => if k < 4 then IO.println "ok"; loopZ stdin { z with cur := k } else IO.println "bad-op"; loop stdin cur
+    | none => IO.println "bad-op"; loop stdin cur
+  | ["nullh"], _ =>
+    let (s, n, l, t) := nullAnswers
+    IO.println (s.getD "null" ++ " " ++ toString n ++ " " ++ toString l ++ " " ++ toString t)
+    loop stdin cur
   | ["new", a], _ =>
-    match algOf a with
-    | some (A, spec) => IO.println "ok"; loop stdin (some { A := A, spec := spec, h := Hash.new A })
+    match (codeOf a).bind liveOfCode with
+    | some l => IO.println "ok"; loop stdin (some l)
     | none => IO.println "bad-op"; loop stdin none
+  | ["newt", c], _ =>
+    match c.toInt? with
+    | none => IO.println "bad-op"; loop stdin none
+    | some c =>
+      if !typeAccepted c then IO.println "fail"; loop stdin none
+      else match liveOfCode c with
+        | some l => IO.println "ok"; loop stdin (some l)
+        | none => IO.println "bad-op"; loop stdin none      -- a type of the other family
   | _, none => IO.println "bad-op"; loop stdin none
+  | ["free"], some _ => IO.println "ok"; loop stdin none
+  | ["type"], some l => IO.println (toString l.code); loop stdin cur
+  | ["updn", n], some l =>
+    match n.toNat? with
+    | some n => IO.println "ok"; loop stdin (some { l with h := l.h.updateNull n })
+    | none => IO.println "bad-op"; loop stdin cur
+  | ["dign", c], some l =>
+    match c.toNat? with
+    | some cap =>
+      let (h, n) := l.h.getDigestNullBuf cap
+      IO.println (toString n ++ " ")
+      loop stdin (some { l with h := h })
+    | none => IO.println "bad-op"; loop stdin cur
+  | ["dignl"], some l => IO.println "ok"; loop stdin (some { l with h := l.h.getDigestNullLen })
+  | ["par", a], some l =>
+    match parArgs a with
+    | none => IO.println "bad-op"; loop stdin cur
+    | some (_, r, b) =>
+      -- every thread owns its object: each one's answer is that of a fresh object updated `r` times
+      let h := (List.range r).foldl (fun (h : Hash l.A) _ => h.update b) (Hash.new l.A)
+      let msg := (List.range r).flatMap fun _ => b
+      let sp := if msg.length ≤ specLimit then some (hexOfBytes (l.spec msg)) else none
+      IO.println (withSpec h.getString.2 sp)
+      loop stdin cur
   | ["upd", hex], some l =>
     match bytesOfHex hex with
     | some b =>
@@ -115,6 +192,6 @@ partial def loop (stdin : IO.FS.Stream) (cur : Option Live) : IO Unit := do
     loop stdin (some { l with h := l.h.reset, sp := {} })
   | _, _ => IO.println "bad-op"; loop stdin cur
 
-def run : IO Unit := do loop (← IO.getStdin) none
+def run : IO Unit := do loopZ (← IO.getStdin) {}
 
 end PV.Driver.HashX
